@@ -52,6 +52,12 @@ def derive(d):
     for i, r in enumerate(recs):
         d2 = ProvDocument()
         res.append(("add_record[%d]" % i, "rec", d2.add_record(r), "rec", r))
+    # add_record of a record that already belongs to the receiving container, and of a copy made for it
+    for i, r in enumerate(recs[:2]):
+        res.append(("add_record-own[%d]" % i, "rec", r.bundle.add_record(r), "rec", r))
+    for i, r in enumerate(recs[:1]):
+        c = r.copy()
+        res.append(("add_record-own-copy[%d]" % i, "rec", r.bundle.add_record(c), "rec", c))
     res.append(("ProvDocument(records)", "doc", ProvDocument(records=d.get_records()), "doc", d))
     d2 = ProvDocument()
     d2.update(d)
@@ -167,7 +173,10 @@ class C12(spec.Spec):
         # same bundle), so a name used on the copy is registered there: for 'copy' only the
         # content of the source is compared, not its namespace declarations
         whole = (lambda: full_obs(src_whole)[0]) if label.startswith("copy") else (lambda: full_obs(src_whole))
-        before_d = whole() if label.startswith("copy") else before_d
+        if label.startswith("add_record-own"):
+            # result and source are two records of one container: only the two records are compared
+            whole = lambda: None
+        before_d = whole() if label.startswith(("copy", "add_record-own")) else before_d
         if side == "result":
             if obs_of(sk, s) != before_s or whole() != before_d:
                 self.report(out, "source-changed-by-mutating-result", label, mlabel, before_d, whole(), hh)
